@@ -59,18 +59,18 @@ type sqCall struct {
 
 type sqRun struct {
 	nGets, nHits, nExpiredResident int64 // C16: reads made / answered from the cache / that met an expired resident entry
-	c       sqCase
-	x       *verifkit.Ctx
-	s       *Store[int, int]
-	ls      *LoadingStore[int, int]
-	seq     int
-	writes  map[int]*sqWrite // by value
-	mu      sync.Mutex
-	calls   []sqCall
-	step    int
-	stalled bool
-	tickReq bool
-	ticksAt int64
+	c                              sqCase
+	x                              *verifkit.Ctx
+	s                              *Store[int, int]
+	ls                             *LoadingStore[int, int]
+	seq                            int
+	writes                         map[int]*sqWrite // by value
+	mu                             sync.Mutex
+	calls                          []sqCall
+	step                           int
+	stalled                        bool
+	tickReq                        bool
+	ticksAt                        int64
 	// staleness of the cached clock
 	lastRefresh int64
 	// loader script for the next load
@@ -664,7 +664,6 @@ func execSeq(c sqCase, x *verifkit.Ctx, c03, c06 bool, stats ...bool) (fail *ver
 	}
 	return nil
 }
-
 
 // parkedSet performs Set(k, ...) while a forced tick runs, arranged so that on the shard lock of k
 // the write is queued AHEAD of the expiry path: the harness holds the lock, lets the writer
